@@ -208,7 +208,7 @@ def run(ctx):
         model.mc(spec, consts, ctx, name, invariants=invs, properties=props)
         model.mc(spec, dict(consts, **neg), ctx, name + "_neg", invariants=invs, properties=props, expect_violation=True)
         g, _ = graphwalk.emit_graph(spec, model.cfg_text(consts, view="View", action_constraint="Emit"), ctx, name)
-        st = graphwalk.walk(g, adapter, ctx, name, paths_per_state=4)
+        st = graphwalk.walk(g, adapter, ctx, name, paths_per_state=4, history_ops=("flush", "clear", "drain"))
         ctx.note("walk %s" % st)
     ctx.exhaustive = True
     # unbounded in depth: Apalache discharges an inductive invariant of the reorder buffer (and fails on the negative control)
